@@ -49,6 +49,11 @@ P0 == [keep |-> FALSE, pctx |-> 0,
        refs |-> <<>>,    \* plain reference id -> [st, cb, g, ever]
        cons |-> <<>>,    \* consumer call id -> record (Wait, Resolve, ResolveWithReleased, Access)
        panicked |-> FALSE,
+       \* the root context given to SetContext was cancelled by the client: the resolver call that is
+       \* active then still has to deliver its result; once any further API call or released() follows
+       \* (dirty) nothing can be said about liveness any more (later resolve goroutines see a cancelled
+       \* context and may end without calling the resolver)
+       rootc |-> [dead |-> FALSE, dirty |-> FALSE],
        bad |-> {}]
 
 PInit == ps = P0
@@ -239,10 +244,15 @@ QuietBad(s, tgt, tgterr, act, blk, incb, cbdone, open) ==
     \cup If(\E c \in (incb \cap ConsOpen(s)) \ cbdone : s.cons[c].cbval \in s.inv \/ s.cons[c].canc, {"AccessNotCancelled"})
     \cup If(\E c \in DOMAIN s.cons : s.cons[c].must /\ s.cons[c].relcb = 0, {"RelCbMissing"})
 
+PRootCancel(s) == [s EXCEPT !.rootc = [dead |-> TRUE, dirty |-> FALSE]]
+Dirty(s) == IF s.rootc.dead THEN [s EXCEPT !.rootc.dirty = TRUE] ELSE s
+
 PQuiet(s, tgt, tgterr, act, blk, incb, cbdone, open) ==
     \* by a quiescent point every deferred released() has been processed
-    LET s2 == Must([s EXCEPT !.invd = s.inv]) IN
-    Bad(s2, QuietBad(s2, tgt, tgterr, act, blk, incb, cbdone, open))
+    LET s2 == Must([s EXCEPT !.invd = s.inv])
+        qb == QuietBad(s2, tgt, tgterr, act, blk, incb, cbdone, open)
+    IN
+    Bad(s2, IF s.rootc.dead /\ s.rootc.dirty THEN {n \in qb : Len(n) >= 8 /\ SubSeq(n, 1, 8) = "Harness:"} ELSE qb)
 
 -----------------------------------------------------------------------------
 (* The properties *)
